@@ -2,6 +2,7 @@ package rules
 
 import (
 	"fmt"
+	"os"
 	"go/token"
 	"go/types"
 	"sort"
@@ -346,11 +347,19 @@ func NoDrop(p *core.Prog, r *core.Report) {
 	const rule = "NO-DROP"
 	pi := discoverPools(p)
 	ra := newResAnalysis(p)
-	files := map[string]bool{"spec.go": true, "default_validator.go": true, "example_validator.go": true, "helpers.go": true}
+	scope := specScope(p)
+	if os.Getenv("VCHK_SCOPE") != "" {
+		for _, f := range p.Funcs {
+			inFile := map[string]bool{"spec.go": true, "default_validator.go": true, "example_validator.go": true, "helpers.go": true}[p.File(f.Pos())]
+			if inFile != scope[f] {
+				fmt.Println("SCOPE-DIFF", core.FuncName(f), "file:", inFile, "scope:", scope[f])
+			}
+		}
+	}
 	n := 0
 	seq := map[string]int{}
 	for _, f := range p.Funcs {
-		if !files[p.File(f.Pos())] {
+		if !scope[f] {
 			continue
 		}
 		fn := core.FuncName(f)
@@ -800,4 +809,108 @@ func WarnNeutral(p *core.Prog, r *core.Report) {
 	r.Info["may_warn_functions"] = mw
 	r.Count("warning_sensitive_error_sites", n)
 	r.Floor("warning_sensitive_error_sites", 5)
+}
+
+// specScope: the functions that make up spec validation, found structurally instead of by file name: the methods
+// of SpecValidator and of the types that hold a *SpecValidator (the default / example walkers), plus every package
+// function or helper method they call (transitively) that is neither a method of Result nor of a pooled validator
+// type (those belong to schema validation) — so moving a rule function to another file leaves it in scope.
+func specScope(p *core.Prog) map[*ssa.Function]bool {
+	pi := discoverPools(p)
+	isSpecType := func(t types.Type) bool {
+		n := core.NamedOf(t)
+		if n == nil {
+			return false
+		}
+		if n.Obj().Name() == "SpecValidator" {
+			return true
+		}
+		if st, ok := n.Underlying().(*types.Struct); ok {
+			for k := 0; k < st.NumFields(); k++ {
+				if fn := core.NamedOf(st.Field(k).Type()); fn != nil && fn.Obj().Name() == "SpecValidator" {
+					return true
+				}
+			}
+		}
+		return false
+	}
+	excluded := func(g *ssa.Function) bool {
+		if _, isB := pi.borrow[g]; isB {
+			return true // pool layer: POOL-API
+		}
+		if _, isR := pi.redeem[g]; isR {
+			return true
+		}
+		usesSync := false
+		core.EachInstr(g, func(i ssa.Instruction) {
+			for _, op := range i.Operands(nil) {
+				if op != nil && *op != nil {
+					if gl, ok := (*op).(*ssa.Global); ok && isSyncType(gl.Type()) {
+						usesSync = true // the regexp cache: COW
+					}
+				}
+			}
+		})
+		if usesSync {
+			return true
+		}
+		if g.Signature.Recv() == nil {
+			return false
+		}
+		n := core.NamedOf(g.Signature.Recv().Type())
+		if n == nil {
+			return false
+		}
+		return pi.pooled[n] || isResultPtr(g.Signature.Recv().Type()) || n.Obj().Name() == "SchemaValidator" || n.Obj().Name() == "ParamValidator" || n.Obj().Name() == "HeaderValidator"
+	}
+	scope := map[*ssa.Function]bool{}
+	var work []*ssa.Function
+	add := func(f *ssa.Function) {
+		if f == nil || scope[f] || len(f.Blocks) == 0 {
+			return
+		}
+		scope[f] = true
+		work = append(work, f)
+	}
+	for _, f := range p.Funcs {
+		if f.Parent() == nil && f.Signature.Recv() != nil && isSpecType(f.Signature.Recv().Type()) {
+			add(f)
+		}
+		// exported entry points that build or run a spec validator
+		if f.Parent() == nil && f.Signature.Recv() == nil && f.Object() != nil && f.Object().Exported() && f.Pkg == p.Main {
+			uses := false
+			core.EachInstr(f, func(i ssa.Instruction) {
+				if c, ok := i.(ssa.CallInstruction); ok {
+					if g := core.StaticCallee(c); g != nil && g.Signature.Recv() != nil && isSpecType(g.Signature.Recv().Type()) {
+						uses = true
+					}
+				}
+				if al, ok := i.(*ssa.Alloc); ok && isSpecType(al.Type()) {
+					uses = true
+				}
+			})
+			if uses {
+				add(f)
+			}
+		}
+	}
+	ctors := ctorsOf(p, pi)
+	for len(work) > 0 {
+		f := work[len(work)-1]
+		work = work[:len(work)-1]
+		for _, a := range f.AnonFuncs {
+			add(a)
+		}
+		core.EachInstr(f, func(i ssa.Instruction) {
+			if c, ok := i.(ssa.CallInstruction); ok {
+				if g := core.StaticCallee(c); g != nil && p.InSubject(g) && g.Pkg == p.Main && !excluded(g) && ctors[g] == nil && !strings.HasSuffix(g.Name(), "Msg") {
+					if g.Object() != nil && g.Object().Exported() && g.Signature.Recv() == nil {
+						return // exported helpers (values.go) are not spec-validation code
+					}
+					add(g)
+				}
+			}
+		})
+	}
+	return scope
 }
